@@ -255,6 +255,78 @@ def eval_model(build, name, cases):
     return rows, secs
 
 
+def translate_and_prove(ctx, name, build, proof_file, compiled=None):
+    """(i) translate the current source of `name` into build/Gen_<name>.v and compile it, (ii) compile the hand-written proof script
+    against it and check Print Assumptions.  Returns (model_ok, problems).  `compiled`: set of targets already built in `build`."""
+    problems = []; compiled = compiled if compiled is not None else set()
+    gen = os.path.join(build, "Gen_%s.v" % name)
+    p = subprocess.run([sys.executable, os.path.join(common.ROOT, "harness", "translate.py"), name, "--repo", common.REPO, "-o", gen], capture_output=True, text=True)
+    if p.returncode != 0 or not os.path.exists(gen):
+        return False, ["translation step: " + (p.stderr.strip().splitlines() or ["translate.py exit %d" % p.returncode])[-1]]
+    ctx.count("generated_model", "translated")
+    shutil.copy(gen, os.path.join(os.path.dirname(build), "Gen_%s.v" % name))
+    missing = [c for c in re.findall(r"From FPGen Require Gen_(\w+)\.", open(gen).read()) if c not in compiled]
+    if missing:
+        return False, ["the generated model calls %s, whose generated model is not available" % missing]
+    rc, out, log, secs = coqc(build, "Gen_%s.v" % name)
+    ctx.count("generated_model", "coqc_s", secs)
+    if rc != 0:
+        return False, ["the generated file Gen_%s.v does not compile: %s" % (name, log[-600:])]
+    compiled.add(name)
+    src = open(os.path.join(common.COQ, "gen_proofs", proof_file)).read()
+    open(os.path.join(build, proof_file), "w").write(src)
+    txt = common.strip_coq_comments(src) + common.strip_coq_comments(open(gen).read())
+    forb = sorted({m.group(0) for m in common.FORBIDDEN.finditer(txt)})
+    thms = re.findall(r"Print Assumptions\s+([A-Za-z0-9_']+)\s*\.", common.strip_coq_comments(src))
+    rc, out, log, secs = coqc(build, proof_file)
+    ctx.count("generated_model", "coqc_s", secs)
+    closed = out.count("Closed under the global context")
+    if forb: problems.append("forbidden vernacular in %s / generated file: %s" % (proof_file, forb))
+    if rc != 0:
+        m = re.search(r'File "[^"]*", line (\d+)', log); thm = None
+        if m:
+            ths = re.findall(r"\b(?:Theorem|Lemma|Example)\s+([A-Za-z0-9_']+)", "\n".join(src.splitlines()[:int(m.group(1))]))
+            thm = ths[-1] if ths else None
+        problems.append("proof no longer checks against the regenerated model: %s, theorem %s: %s" % (proof_file, thm, " ".join(log.split())[:400]))
+    elif closed != len(thms) or not thms:
+        problems.append("Print Assumptions of %s: %d theorems, %d closed under the global context" % (proof_file, len(thms), closed))
+    else:
+        ctx.count("generated_model", "proofs_checked", len(thms))
+        ctx.notes.append({"generated_model": name, "proof_file": "coq/gen_proofs/" + proof_file, "theorems": thms,
+                          "assumptions": "Closed under the global context", "examples": re.findall(r"\bExample\s+([A-Za-z0-9_']+)", src)})
+    return True, problems
+
+
+def vm_eval(build, name, header, calls, depth=2):
+    """Eval vm_compute of a list of terms (each of type list Z for depth 2, list (list Z) for depth 3) in build/Cases_<name>.v;
+    returns the parsed nested integer lists or an error string, and the seconds spent"""
+    ty = "list (list Z)" if depth == 2 else "list (list (list Z))"
+    L = ["From Coq Require Import List NArith ZArith QArith Bool.", "Import ListNotations."] + header + ["Definition results : %s := [" % ty]
+    L.append(";\n".join("  " + c for c in calls))
+    L += ["].", "Eval vm_compute in results."]
+    open(os.path.join(build, "Cases_%s.v" % name), "w").write("\n".join(L) + "\n")
+    rc, out, log, secs = coqc(build, "Cases_%s.v" % name)
+    if rc != 0:
+        return "the generated cases file does not compile: " + log[-800:], secs
+    body = out[out.index("=") + 1:] if "=" in out else ""
+    body = body.rsplit(":", 1)[0].replace("%Z", "").replace("(", "").replace(")", "")
+    stack = [[]]; num = ""
+    for ch in body:
+        if ch == "[":
+            stack.append([])
+        elif ch in "];":
+            if num.strip(): stack[-1].append(int(num))
+            num = ""
+            if ch == "]":
+                top = stack.pop(); stack[-1].append(top)
+        else:
+            num += ch
+    res = stack[0][0] if stack[0] else []
+    if len(res) != len(calls):
+        return "could not read %d results back from coqc (got %d)" % (len(calls), len(res)), secs
+    return res, secs
+
+
 # ------------------------------------------------------------------------------------------ per target
 def describe(name, args):
     if name == "max_occurrence":
